@@ -55,7 +55,8 @@ MethodBag == <<"GET", "GET", "GET", "GET", "HEAD", "HEAD", "POST", "POST", "POST
 BehBag == <<"val", "val", "val", "val", "empty", "nil", "nil", "nl", "err", "status", "status", "wrap">>
 CodeBag == <<400, 403, 404, 409, 418, 429, 500, 503>>
 AcceptBag == <<"", "", "", "", "json", "cbor", "msgpack", "yaml", "wild", "multi", "bad">>
-WriteBodies == <<"none", "small", "small", "small", "small", "mid", "chunksmall", "chunksmall", "overdecl", "overchunk", "under">>
+WriteBodies == <<"none", "none", "small", "small", "small", "small", "small", "small", "small", "small", "mid", "mid",
+                 "chunksmall", "chunksmall", "chunksmall", "overdecl", "overdecl", "overdecl", "overchunk", "under">>
 WriteBodiesLight == <<"none", "small", "small", "small", "mid", "chunksmall", "chunksmall", "overdecl">>
 
 RndReq(s, n) ==
@@ -93,7 +94,7 @@ RndOp(s, n) ==
       [] f = "req"    -> Op("req", NullD, RndReq(s, n + 200), FALSE, "", 0, <<>>)
       [] f = "list"   -> Op("list", NullD, NullQ, FALSE, Bag(<<"http", "export">>, n + 1), 0, <<>>)
       [] f = "bypath" -> Op("bypath", NullD, NullQ, FALSE, "", Rnd(1..NPaths, n + 2), <<>>)
-      [] f = "mod"    -> IF ~s.online /\ Rnd(1..4, n + 6) = 1
+      [] f = "mod"    -> IF ~s.online /\ Rnd(1..6, n + 6) = 1
                          THEN Op("reqstart", NullD, RndReqStart(s, n + 400), FALSE, "", 0, <<>>)
                          ELSE Op("mod", NullD, NullQ, ~s.online, "", 0, <<>>)
       [] f = "race"   -> LET k == Rnd(2..4, n + 3)
@@ -120,8 +121,8 @@ BfsDecls == {[p |-> p, fns |-> f, rd |-> pm[1], wr |-> pm[2], rm |-> "", wm |-> 
                f \in (CASE Dom = 1 -> {<<"action">>, <<"handler">>, <<"record">>, <<"action", "data">>}
                         [] Dom = 2 -> {<<"data">>, <<"record">>, <<"struct">>, <<"action", "data">>}
                         [] OTHER   -> {<<"action">>, <<"data">>, <<"struct">>, <<"record">>, <<"handler">>, <<>>, <<"action", "data">>}),
-               pm \in (IF Dom = 2 THEN {<<1, 1>>, <<1, 0>>, <<0, 0>>, <<5, 1>>} ELSE {<<1, 1>>, <<1, 0>>, <<0, 0>>, <<5, 1>>, <<2, -1>>}),
-               wm \in (IF Dom = 2 THEN {"", "GET"} ELSE {"", "PUT", "GET"}), md \in {0, 1}}
+               pm \in (IF Dom = 3 THEN {<<1, 1>>, <<1, 0>>, <<0, 0>>, <<5, 1>>, <<2, -1>>} ELSE {<<1, 1>>, <<1, 0>>, <<0, 0>>, <<5, 1>>}),
+               wm \in (IF Dom = 3 THEN {"", "PUT", "GET"} ELSE {"", "GET"}), md \in {0, 1}}
 BfsReqs == {[m |-> m, acrm |-> ac, segs |-> sg, accept |-> "", body |-> bd, beh |-> bh, code |-> 418,
              hdr |-> TRUE, ct |-> FALSE, tp |-> 0]
             : m \in {"GET", "HEAD", "POST", "DELETE", "OPTIONS", "PATCH"}, ac \in {"", "GET"},
